@@ -358,19 +358,28 @@ macro_rules! impl_tryfrom_integer {
                             if matches!(e, lexical_core::Error::InvalidDigit(_)) {
                                 let value = lexical_core::parse::<$intermediate>(value)?;
 
-                                if !value.is_normal() {
-                                    Err(lexical_core::Error::Overflow(0).into())
-                                } else if value > (<$from>::MAX as $intermediate) {
-                                    Err(lexical_core::Error::Overflow(0).into())
-                                } else if value < (<$from>::MIN as $intermediate) {
-                                    Err(lexical_core::Error::Underflow(0).into())
+                                // `MAX + 1` is a power of two and `MIN` is zero or a negated power of
+                                // two, both are exact as floats (`MAX as float` may round up).
+                                if !(value < (<$from>::MAX as $intermediate) + 1.0) {
+                                    Err(lexical_core::Error::Overflow(0))
+                                } else if !(value - (<$from>::MIN as $intermediate) > -1.0) {
+                                    Err(lexical_core::Error::Underflow(0))
                                 } else {
                                     // <f32|f64>::round() doesn't exist in no_std...
-                                    // Safe because value is checked to be normal and within bounds earlier
-                                    if value.is_sign_positive() {
-                                        Ok(unsafe { (value + 0.5).to_int_unchecked() })
+                                    // Truncate (cannot saturate, see above) and round half away from
+                                    // zero using the remainder, which is exact.
+                                    let truncated = value as $from;
+                                    let remainder = value - (truncated as $intermediate);
+                                    if remainder >= 0.5 {
+                                        truncated
+                                            .checked_add(1)
+                                            .ok_or(lexical_core::Error::Overflow(0))
+                                    } else if remainder <= -0.5 {
+                                        truncated
+                                            .checked_sub(1)
+                                            .ok_or(lexical_core::Error::Underflow(0))
                                     } else {
-                                        Ok(unsafe { (value - 0.5).to_int_unchecked() })
+                                        Ok(truncated)
                                     }
                                 }
                             } else {
